@@ -16,6 +16,8 @@ structure Th where
   key : Nat
   stage : String       -- cand | selected | beforeReindex | delheld | shiftsel | guard | stuck | done
   result : String
+  /-- shift claims: what the selection pass took (key, rendering of the copy taken there) -/
+  taken : List (Nat × String) := []
 
 structure DSt where
   cfg : Cfg
@@ -55,18 +57,50 @@ def heldKeys (d : DSt) : List Nat := (d.ths.filter (·.stage == "delheld")).map 
 
 def setTh (d : DSt) (t : Th) : DSt := { d with ths := d.ths.map (fun u => if u.name == t.name then t else u) }
 
-/-- shift claim (atomic in the model); the reply shows the clones taken at selection time -/
-def doShift (d : DSt) (c n : Nat) (want : Option Nat) : DSt × String :=
-  let before := d.sp.1
+def showRec (s : St) (k : Nat) : String := s!"{keyName k}:{if (s.recs k).void then "void" else statusName (s.recs k).status}"
+
+/-- the selection pass of a shift claim: what it took, with the copies made there -/
+def selectShift (d : DSt) (c n : Nat) (want : Option Nat) : Option (DSt × List (Nat × String)) :=
+  -- a pass that only tries the guards skips the records whose guard is held; they stay indexed
+  let held := if d.guardUnderBeaconLock then [] else heldKeys d
+  let idx0 := d.sp.1.index
+  let d := if held.isEmpty then d else { d with sp := ({ d.sp.1 with index := idx0.filter (fun k => !held.contains k) }, d.sp.2) }
   match doStep d (.shift c n want) with
+  | none => none
+  | some sp0 =>
+    let sp' := if held.isEmpty then sp0 else
+      ({ sp0.1 with index := idx0.filter (fun k => held.contains k || sp0.1.index.contains k) }, sp0.2)
+    some ({ d with sp := sp' }, (sp'.1.shsel c).map (fun e => (e.1, showRec d.sp.1 e.1)))
+
+/-- the per-record delete steps; the reply lists what is handed out.  A claim the Spec rejects is flagged by cause. -/
+def deleteShift (d : DSt) (c : Nat) (taken : List (Nat × String)) : DSt × String :=
+  let want := d.sp.1.shwant c
+  let emptyCand := want.isSome && candEmpty d.sp.1 c
+  let (d', out, flags) := taken.foldl (fun (acc : DSt × List String × List String) e =>
+    let d0 := acc.1
+    let s0 := d0.sp.1
+    let r := s0.recs e.1
+    let selVer := ((s0.shsel c).find? (fun x => x.1 == e.1)).map (·.2)
+    match doStep d0 (.shiftDel c e.1) with
+    | none => (d0, acc.2.1 ++ [s!"{keyName e.1}:ERR"], acc.2.2)
+    | some sp' =>
+      let news := sp'.1.claimed.drop s0.claimed.length
+      let shown := if d0.cfg.deleteRevalidates then showRec s0 e.1 else e.2
+      let out' := if news.isEmpty then acc.2.1 else acc.2.1 ++ [shown]
+      let fl := if news.any (fun cl => !cl.ok) then
+          (if !d0.cfg.deleteRevalidates && (!r.present || selVer != some r.ver) then ["C11-shift-delete-not-revalidated"]
+           else if emptyCand then ["C11-empty-candidate-set-matches-all"]
+           else if want.isSome && r.present then ["C11-stale-candidate-set"]
+           else ["C11-claim-returns-deleted-record"])
+        else []
+      ({ d0 with sp := sp' }, out', acc.2.2 ++ fl.filter (fun f => !acc.2.2.contains f))) (d, [], [])
+  (d', "keys=[" ++ ",".intercalate out ++ "]" ++ String.join (flags.map (fun f => "\t#F:" ++ f)))
+
+/-- a synchronous shift claim -/
+def doShift (d : DSt) (c n : Nat) (want : Option Nat) : DSt × String :=
+  match selectShift d c n want with
   | none => (d, "ERR")
-  | some sp' =>
-    let taken := (sp'.1.batches.getLast?.map (·.got)).getD []
-    let bad := (sp'.1.claimed.drop before.claimed.length).any (fun cl => !cl.ok)
-    ({ d with sp := sp' }, s!"keys={showKeys before taken}" ++
-      (if bad then (if want.isSome && candEmpty before c then "\t#F:C11-empty-candidate-set-matches-all"
-                    else if want.isSome && taken.all (fun k => (before.recs k).present) then "\t#F:C11-stale-candidate-set"
-                    else "\t#F:C11-claim-returns-deleted-record") else ""))
+  | some (d1, taken) => deleteShift d1 c taken
 
 def patchAll (d : DSt) (t : Th) : DSt × String :=
   let sel := d.sp.1.sel t.id
@@ -83,9 +117,16 @@ def patchAll (d : DSt) (t : Th) : DSt × String :=
 def advance (d : DSt) (t : Th) : DSt × String :=
   match t.kind, t.stage with
   | "shiftm", "cand" =>
-    let (d', r) := doShift d t.id t.how t.filt
+    match selectShift d t.id t.how t.filt with
+    | none => (d, "ERR")
+    | some (d', taken) => (setTh d' { t with stage := "shiftsel", taken := taken }, s!"{t.name}@shift.selected")
+  | "shiftm", "shiftsel" =>
+    let (d', r) := deleteShift d t.id t.taken
     (setTh d' { t with stage := "done" }, s!"{t.name} done {r}")
-  | "shiftexp", "shiftsel" => (setTh d { t with stage := "done" }, s!"{t.name} done {t.result}")
+  | "shiftexp", "shiftsel" =>
+    let (d', r) := deleteShift d t.id t.taken
+    (setTh d' { t with stage := "done" }, s!"{t.name} done {r}")
+  | "shiftexp", "guard" => (d, s!"{t.name} stuck")
   | "pexp", "cand" =>
     match doStep d (.pselect t.id t.how true) with
     | none => (d, "ERR")
@@ -133,8 +174,9 @@ def spawn (d : DSt) (ws : List String) : DSt × String :=
       if d.guardUnderBeaconLock && d.sp.1.index.any (fun k => (heldKeys d).contains k) then
         ({ d with ths := d.ths ++ [{ t with stage := "guard" }] }, s!"{n}@guard")
       else
-        let (d', r) := doShift d (tid n) h none
-        ({ d' with ths := d'.ths ++ [{ t with result := (r.splitOn "\t").headD "" }] }, s!"{n}@shift.selected")
+        match selectShift d (tid n) h none with
+        | none => (d, "ERR")
+        | some (d', taken) => ({ d' with ths := d'.ths ++ [{ t with taken := taken }] }, s!"{n}@shift.selected")
     | none => (d, "bad-op")
   | ["spawn", n, "pexp", how, f, off, ns] =>
     match how.toNat?, off.toInt? with
@@ -227,7 +269,7 @@ def run (args : List String) : IO UInt32 := do
   let cfg : Cfg := { selectAtomic := yes "selectUnderLock", counterLe := arg kv "counterCmp" == "le",
                      checksExpNonZero := yes "checksExpNonZero", rechecksIndexedLeg := yes "rechecksIndexedLeg",
                      reindexChecksExists := yes "reindexChecksExists", patchChecksExists := yes "patchChecksExists",
-                     emptyCandMeansAll := yes "emptyCandMeansAll" }
+                     emptyCandMeansAll := yes "emptyCandMeansAll", deleteRevalidates := yes "shiftDeleteRevalidates" }
   lineLoop step { cfg := cfg, guardUnderBeaconLock := arg kv "guardUnderBeaconLock" != "no",
                   beaconUnderGuard := arg kv "beaconUnderGuard" != "no", mode := "", sp := init false, ths := [] }
   return 0
